@@ -508,6 +508,8 @@ var ruleO3 = &Rule{
 	},
 }
 
+var returnsDerivedDepth int
+
 func returnsDerived(fn *ssa.Function, p *ssa.Parameter) bool {
 	derived := map[ssa.Value]bool{p: true}
 	for changed := true; changed; {
@@ -535,6 +537,20 @@ func returnsDerived(fn *ssa.Function, p *ssa.Parameter) bool {
 					if bi, ok := x.Common().Value.(*ssa.Builtin); ok && bi.Name() == "append" && derived[x.Common().Args[0]] {
 						derived[v] = true
 						changed = true
+					}
+					// handed through a module function that gives the same slice back (`return sanitizeLabels(buf)`)
+					if sc := x.Common().StaticCallee(); sc != nil && sc != fn && isModuleFn(sc) && len(sc.Blocks) > 0 && returnsDerivedDepth < 3 {
+						for i, a := range x.Common().Args {
+							if derived[a] && i < len(sc.Params) {
+								returnsDerivedDepth++
+								ok := returnsDerived(sc, sc.Params[i])
+								returnsDerivedDepth--
+								if ok {
+									derived[v] = true
+									changed = true
+								}
+							}
+						}
 					}
 				}
 			}
